@@ -135,3 +135,20 @@ MUTANTS += [
     dict(prop="C18", name="save writes before converting", file="io/aoef/__init__.py", old="    aoef_object = to_aeof(obj, audio_dir=audio_dir)\n    path.write_text(", new="    path.write_text(\"\")\n    aoef_object = to_aeof(obj, audio_dir=audio_dir)\n    path.write_text("),
     dict(prop="C18", name="loader drops audio_dir", file="io/loader.py", old="    return loader(path, audio_dir=audio_dir, type=type)", new="    return loader(path, audio_dir=None, type=type)"),
 ]
+AR = "io/aoef/recording.py"
+MUTANTS += [
+    dict(prop="C01", name="license not read back (part of the original defect)", file=AR, old="            rights=obj.rights,\n            license=obj.license,\n        )\n\n    def assemble_soundevent", new="            rights=obj.rights,\n        )\n\n    def assemble_soundevent"),
+    dict(prop="C01", name="latitude/longitude swapped on load", file=AR, old="            latitude=obj.latitude,\n            longitude=obj.longitude,\n            tags=tags,", new="            latitude=obj.longitude,\n            longitude=obj.latitude,\n            tags=tags,"),
+    dict(prop="C01", name="time_expansion elision compares with 2.0", file=AR, old="if obj.time_expansion != 1.0", new="if obj.time_expansion != 2.0"),
+    dict(prop="C01", name="clip end_time written as start_time", file="io/aoef/clip.py", old="            end_time=obj.end_time,\n            uuid=obj.uuid,", new="            end_time=obj.start_time,\n            uuid=obj.uuid,"),
+    dict(prop="C01", name="sequence sound events reversed on load", file="io/aoef/sequence.py", old="            for sound_event_id in obj.sound_events\n", new="            for sound_event_id in obj.sound_events[::-1]\n"),
+    dict(prop="C01", name="note is_issue dropped", file="io/aoef/note.py", old="            is_issue=note.is_issue,\n            created_on=note.created_on,\n        )\n\n    def to_soundevent", new="            created_on=note.created_on,\n        )\n\n    def to_soundevent"),
+    dict(prop="C01", name="match score saved as affinity", file="io/aoef/match.py", old="            score=obj.score,\n            metrics=(", new="            score=obj.affinity,\n            metrics=("),
+    dict(prop="C02", name="clip references recording without registering it", file="io/aoef/clip.py", old="            recording=self.recording_adapter.to_aoef(obj.recording).uuid,", new="            recording=obj.recording.uuid,"),
+    dict(prop="C02", name="prediction set omits sequence predictions (original defect)", file="io/aoef/prediction_set.py", old="            sequence_predictions=self.sequence_prediction_adapter.values(),\n", new=""),
+    dict(prop="C02", name="evaluation set converts evaluation tags after the tags snapshot (original defect)", file="io/aoef/evaluation_set.py", old="            evaluation_tags=evaluation_tags if evaluation_tags else None,", new="            evaluation_tags=[self.tag_adapter.to_aoef(tag).id for tag in obj.evaluation_tags if tag is not None] or None,"),
+    dict(prop="C02", name="annotation set loads clips before recordings", file="io/aoef/annotation_set.py", old="        for recording in obj.recordings or []:\n            self.recording_adapter.to_soundevent(recording)\n\n        for clip in obj.clips or []:\n            self.clip_adapter.to_soundevent(clip)\n", new="        for clip in obj.clips or []:\n            self.clip_adapter.to_soundevent(clip)\n\n        for recording in obj.recordings or []:\n            self.recording_adapter.to_soundevent(recording)\n"),
+    dict(prop="C01", name="evaluation set never saves its evaluation tags", file="io/aoef/evaluation_set.py", old="        evaluation_tags = [\n            self.tag_adapter.to_aoef(tag).id for tag in obj.evaluation_tags\n        ]\n", new="        evaluation_tags = None\n"),
+    dict(prop="C01", name="model run version not loaded", file="io/aoef/model_run.py", old="            **dict(prediction_set),\n            name=obj.name,\n            version=obj.version,", new="            **dict(prediction_set),\n            name=obj.name,"),
+    dict(prop="C02", name="dispatch: annotation_set row before annotation_project", file="io/aoef/__init__.py", old='    ("evaluation", data.Evaluation, EvaluationAdapter),\n', new='    ("evaluation", data.Evaluation, EvaluationAdapter),\n    ("annotation_set", data.AnnotationSet, AnnotationSetAdapter),\n', expect="caught"),
+]
